@@ -292,7 +292,7 @@ func init() {
 		ID:    "C11",
 		Level: "exploration",
 		Rule: "nested values (depth<=5, <=40 nodes) of records (three defmap types and plain hashes, symbol keys), arrays and scalars: strings over 278 runes of every class (ASCII, quote, backslash, every C0 control, DEL, C1, 2/3/4-byte, non-printable BMP and supplementary), integers at the 2^53 and 64-bit limits and random, floats of all magnitudes, bools, nil, empty containers; built through the Go API and bound as a global. " +
-			"(unjson (json v)) and (unmsgpack (msgpack v)) must equal v under a structural walker (numbers by value, record type names, key order at every level); the bytes of (json v) must be accepted by encoding/json and denote the same data once the two reserved meta keys are interpreted; for hashes with string keys written as JSON-style source literals only well-formedness and denotation are judged. non-trivial = distinct value with a nested record or a non-ASCII/escaped string",
+			"(unjson (json v)) and (unmsgpack (msgpack v)) must equal v under a structural walker (numbers by value, record type names, key order at every level); the bytes of (json v) must be accepted by encoding/json and denote the same data once the two reserved meta keys are interpreted; the encoded bytes of one value must still decode to it after another value has been encoded in between; for hashes with string keys written as JSON-style source literals only well-formedness and denotation are judged. non-trivial = distinct value with a nested record or a non-ASCII/escaped string",
 		Assumptions: []string{
 			"an integer beyond 2^53 must come back as the same integer; a float may come back as an int of equal value when it is integral",
 			"NaN/Inf floats, uint64 and characters are outside the statement's scalar set and are not generated",
@@ -356,6 +356,38 @@ func c11Run(c *core.Ctx, i int) *core.Result {
 			}
 			res.Violate(codec+"-round-trip-differs:"+cls, fmt.Sprintf("v = %s came back as %s: %s", printed, core.Trunc(o.Val.SexpString(nil), 300), d), printed)
 			return res
+		}
+	}
+	// encoded bytes are values of their own: encoding a second value before decoding the first must not disturb them
+	var w zygo.Sexp
+	if g.r.N(2) == 0 {
+		w = g.scalar()
+	} else {
+		w = g.value(1 + (i+2)%4)
+	}
+	s.Env.AddGlobal("ww", w)
+	for _, codec := range []string{"json", "msgpack"} {
+		o := s.Eval(fmt.Sprintf("(def ea (%s vv)) (def eb (%s ww)) (def ec (%s vv)) (list (un%s ea) (un%s eb) (un%s ec))\n", codec, codec, codec, codec, codec, codec), 0)
+		res.Evals++
+		res.Ev("interleaved_encodings", 1)
+		if o.Panic != "" {
+			res.Violate("escaped-panic:"+o.Site, o.Panic, printed)
+			return res
+		}
+		if o.Err != nil {
+			res.Violate(codec+"-interleaved-decoding-fails", fmt.Sprintf("encoding v, then w, then decoding the bytes of v fails: %s", o.ErrLine()), printed)
+			return res
+		}
+		parts, _ := zygo.ListToArray(o.Val)
+		if len(parts) != 3 {
+			res.Violate(codec+"-interleaved-decoding-fails", "unexpected result "+core.Trunc(OutStr(o), 200), printed)
+			return res
+		}
+		for k, want := range []zygo.Sexp{v, w, v} {
+			if d := c11Equal(want, parts[k], "v"); d != "" {
+				res.Violate(codec+"-bytes-disturbed-by-a-later-encoding", fmt.Sprintf("(def ea (%s v)) (def eb (%s w)) (def ec (%s v)): decoding part %d gives %s: %s", codec, codec, codec, k, core.Trunc(parts[k].SexpString(nil), 200), d), printed)
+				return res
+			}
 		}
 	}
 	// well-formedness and denotation of the JSON text
